@@ -83,6 +83,18 @@ func oddities() []oddity {
 	add("quota: two hosts in one file", okFlow, quota(goodQuota+"  - id: Q2\n    filter:\n      url: other.org/*\n    strategy:\n      fixed_window:\n        max: 5\n        interval: 10\n        interval_unit: second\n"))
 	add("quota: child with unknown parent", okFlow, quota(goodQuota+"internal_limits:\n  - id: C\n    parent_id: NOPE\n    filter:\n      url: h.com/c/*\n    strategy:\n      fixed_window:\n        max: 5\n        interval: 10\n        interval_unit: second\n"))
 	add("quota: child that is its own parent", okFlow, quota(goodQuota+"internal_limits:\n  - id: C\n    parent_id: C\n    filter:\n      url: h.com/c/*\n    strategy:\n      fixed_window:\n        max: 5\n        interval: 10\n        interval_unit: second\n"))
+	child := func(body string) string {
+		return goodQuota + "internal_limits:\n  - id: C\n    parent_id: Q\n    filter:\n      url: h.com/c/*\n" + body
+	}
+	add("quota: valid child (control)", okFlow, quota(child("    strategy:\n      fixed_window:\n        max: 2\n        interval: 10\n        interval_unit: second\n")))
+	add("quota: child without a strategy", okFlow, quota(child("")))
+	add("quota: child with an unknown interval unit", okFlow, quota(child("    strategy:\n      fixed_window:\n        max: 2\n        interval: 10\n        interval_unit: seconds\n")))
+	add("quota: child with a negative max", okFlow, quota(child("    strategy:\n      fixed_window:\n        max: -2\n        interval: 10\n        interval_unit: second\n")))
+	add("quota: child with a zero interval", okFlow, quota(child("    strategy:\n      fixed_window:\n        max: 2\n        interval: 0\n        interval_unit: second\n")))
+	add("quota: child without an id", okFlow, quota(goodQuota+"internal_limits:\n  - parent_id: Q\n    filter:\n      url: h.com/c/*\n    strategy:\n      fixed_window:\n        max: 2\n        interval: 10\n        interval_unit: second\n"))
+	add("quota: child without a filter", okFlow, quota(goodQuota+"internal_limits:\n  - id: C\n    parent_id: Q\n    strategy:\n      fixed_window:\n        max: 2\n        interval: 10\n        interval_unit: second\n"))
+	add("quota: child with a larger max than its parent", okFlow, quota(child("    strategy:\n      fixed_window:\n        max: 500\n        interval: 10\n        interval_unit: second\n")))
+	add("quota: child limiter flow on the child quota", one(flowWith("f", "h.com/c/*", "  L:\n    processor: Limiter\n    parameters:\n      - key: quota_id\n        value: C\n", f(startTo, "L")+f(condEnd, "L", "below_limit")+f(condEnd, "L", "above_limit"), "")), quota(child("    strategy:\n      fixed_window:\n        max: 2\n        interval: 10\n        interval_unit: second\n")))
 	add("quota: percentage allocation above 100", okFlow, quota("quotas:\n  - id: Q\n    filter:\n      url: h.com/*\n    strategy:\n      fixed_window:\n        max: 5\n        interval: 10\n        interval_unit: second\n        group_by_header: x-g\n        allocation:\n          percentage: 150\n"))
 	add("quota: not yaml", okFlow, quota("quotas: [unclosed\n"))
 	add("quota: empty file", okFlow, quota(""))
